@@ -295,6 +295,8 @@ def gen_c06(rng, idx, tier, faults):
     heap, ops = {}, []
     kinds = ["uniform", "clusters", "clusters", "lattice", "dups", "offset", "scaled", "gauss"]
     xs = gen_X(rng, kinds, 4, 80 if tier == "thorough" else 48, 2, 6)
+    if rng.random() < 0.15:
+        xs["storage"] = rng.choice(["F", "view", "readonly"])  # the caller's memory layout
     long_run = rng.random() < 0.1
     if long_run:
         xs["shape"][0] = rng.randint(70, 140)  # long searches (counters, thresholds on the number of updates)
